@@ -7,7 +7,7 @@ from .core import PyRaise
 from .values import DictCell, ExcV, ObjCell, Ref, SeqCell, Sym, Unsupported
 
 
-def make_substitution(ccls):
+def make_substitution(ccls, case_map=None):
     from .verify import bind_by_name, contract_functions, make_symbolic
     from .interp import OldNS
     from . import extract
@@ -25,12 +25,14 @@ def make_substitution(ccls):
             else:
                 ns[p] = I.lift(defaults[i - (len(params) - len(defaults))])
         path = I.path
+        caller_case = getattr(I, "case", None) or {}
+        callee_case = case_map(caller_case) if case_map else caller_case
         site = f"call:{ccls.target.split(':')[1]}"
         saved_old = I.old_heap
         I.old_heap = path.snapshot_heap()
         try:
             ns["old"] = OldNS(dict(ns))
-            ns["case"] = getattr(I, "case", None)
+            ns["case"] = I.lift(callee_case)
             for name, f in contract_functions(ccls, "requires"):
                 t = I.truthy(I.call_value(f, bind_by_name(f, ns), {}))
                 path.oblige(f"{I.unit_label}/{site}.{name}", z3.BoolVal(t) if isinstance(t, bool) else t)
@@ -41,11 +43,16 @@ def make_substitution(ccls):
                         raise PyRaise(ExcV(k, ()))
             # havoc what the callee may modify
             n = path.ghost["callsite"] = path.ghost.get("callsite", 0) + 1
-            for expr_name, spec in (getattr(ccls, "modifies", None) or {}).items():
+            mods = getattr(ccls, "modifies", None) or {}
+            if callable(mods):
+                mods = mods(**callee_case)
+            rspec = getattr(ccls, "returns", None)
+            if callable(rspec) and not hasattr(rspec, "kind"):
+                rspec = rspec(**callee_case)
+            for expr_name, spec in mods.items():
                 base_name, _, attr = expr_name.partition(".")
                 base = ns[base_name]
                 I.set_attr(base, attr, make_symbolic(I, spec, f"{site}#{n}.{expr_name}"))
-            rspec = getattr(ccls, "returns", None)
             result = make_symbolic(I, rspec, f"{site}#{n}.result") if rspec is not None else None
             ns["result"] = result
             for name, f in contract_functions(ccls, "ensures"):
